@@ -13,8 +13,9 @@ Decided (structural, necessary):
   R-CGRAPH do_write(): requests are appended to the batch in queue order (single forward pass, no
            early exit), a throttled request is skipped only for lack of quota and the quota does
            not grow inside the pass; the buffer sequence is built in batch order
-Not decided: that the wrap-around comparison is a strict weak order over all 2^32 serials
-(modular arithmetic); ordering as a history over many reconnects.
+  R-ARITH  the extracted write_req::operator< folded on boundary serials x boundary distances x flags:
+           prioritized first, otherwise wrap-around (RFC 1982) serial order — not exhaustive over 2^64 pairs
+Not decided: ordering as a history over many reconnects.
 """
 from engine import Verdict
 from facts import AnalysisBroken, Expr, callee_name, callee_cls, callee_q, strip, enum_of, is_member_of_this
@@ -209,6 +210,54 @@ def run(fx, tier):
         v.check(not incs, 'R-CGRAPH', 'async_sender::do_write:quota-monotone [%s]' % f.tu,
                 'the quota never grows inside the pass, so a later throttled request cannot overtake an earlier skipped one',
                 key='C06:R-CGRAPH:do_write:quota-grows', where=f.file)
+    # ------------------------------------------------------------------ R-ARITH: the ordering relation itself
+    # prioritized requests first; otherwise serial-number arithmetic (RFC 1982): a before b iff
+    # 0 < (b.serial - a.serial) mod 2^W < 2^(W-1).  The extracted CFG of write_req::operator< is folded over
+    # boundary serials x boundary distances x both flag values (object model: two fields).
+    from pyfn import compile_fn, NotCompilable, SignedOverflow
+    import itertools
+    v.rule('R-ARITH', 'write_req::operator< = (prioritized first, then wrap-around serial order) on boundary serials/distances')
+    ops = [f for f in fx.fns if f.cls == 'write_req' and f.n == 'operator<']
+    if not ops:
+        raise AnalysisBroken('write_req::operator< not found')
+    W = None
+    for r in fx.records:
+        if r['n'] == 'write_req':
+            for fld in r['fields']:
+                if fld['n'] == '_serial_num':
+                    W = {'unsigned int': 32, 'unsigned long': 64, 'unsigned short': 16, 'unsigned char': 8}.get(fld.get('canon'))
+    if W is None:
+        raise AnalysisBroken('width of write_req::_serial_num not recognised')
+    seen_tu = set()
+    for f in ops:
+        if f.tu in seen_tu:
+            continue
+        seen_tu.add(f.tu)
+        v.saw(f)
+        try:
+            pf = compile_fn(f, {'prioritized': lambda o: o['p']}, with_this=True)
+        except NotCompilable as ex:
+            raise AnalysisBroken('write_req::operator< is outside the evaluable fragment: %s' % ex)
+        M, H = 1 << W, 1 << (W - 1)
+        serials = sorted({0, 1, 2, H - 1, H, H + 1, M - 2, M - 1, 12345 % M})
+        dists = sorted({0, 1, 2, 3, H - 2, H - 1, H + 1, H + 2, M - 2, M - 1})
+        bad, n = None, 0
+        for pa, pb, s1, d in itertools.product((0, 1), (0, 1), serials, dists):
+            n += 1
+            s2 = (s1 + d) % M
+            try:
+                got = 1 if pf({'_serial_num': s1, 'p': pa}, {'_serial_num': s2, 'p': pb}) else 0
+            except SignedOverflow as ex:
+                bad = 'serials %d, %d: %s' % (s1, s2, ex)
+                break
+            want = pa if pa != pb else (1 if 0 < d < H else 0)
+            if got != want:
+                bad = 'a = (serial %d, prioritized %d), b = (serial %d, prioritized %d): a < b is %d, expected %d' % (s1, pa, s2, pb, got, want)
+                break
+        v.check(bad is None, 'R-ARITH', 'write_req::operator< [%s]' % f.tu,
+                '%d (a, b) pairs over boundary serials and distances (W = %d): prioritized first, then a before b iff 0 < b - a (mod 2^W) < 2^(W-1)' % (n, W)
+                if bad is None else bad, key='C06:R-ARITH:write_req-order', where=f.file)
+    v.expect_min('R-ARITH', 1, 'ordering relation')
     v.expect_min('R-FLOW', 60, 'send sites on paths')
     v.expect_min('R-DOM', 12, 'sort/order/requeue × TUs')
     v.expect_min('R-CGRAPH', 12, 'do_write shape × TUs')
